@@ -510,6 +510,25 @@ func (x *hist) upgradePause(vs []int64, r *hx.Rng) {
 			gk.SaveVote(ctx, govtypes.NewVote(pid, addr, govtypes.OptionYes, sdk.ZeroDec()))
 		}
 	}
+	// the order in which the real code will visit the non-approving voters (votes in store order, then
+	// the remaining holders of the vote permission): it matters only when consensus keys are shared
+	var order []int64
+	processed := map[string]bool{}
+	for _, vote := range gk.GetProposalVotes(ctx, pid) {
+		processed[vote.Voter.String()] = true
+		if id, ok := w.valID[string(sdk.ValAddress(vote.Voter))]; ok && vote.Option != govtypes.OptionYes {
+			order = append(order, int64(id))
+		}
+	}
+	for _, actor := range gk.GetNetworkActorsByAbsoluteWhitelistPermission(ctx, govtypes.PermVoteSoftwareUpgradeProposal) {
+		if !processed[actor.Address.String()] {
+			if id, ok := w.valID[string(sdk.ValAddress(actor.Address))]; ok {
+				order = append(order, int64(id))
+			}
+		}
+		processed[actor.Address.String()] = true
+	}
+	vs = order
 	plan := upgradetypes.Plan{Name: "up", UpgradeTime: x.t - 1, InstateUpgrade: true, SkipHandler: true, ProposalID: pid}
 	if err := a.UpgradeKeeper.SaveNextPlan(ctx.WithBlockTime(time.Unix(x.t-10, 0).UTC()), plan); err != nil {
 		panic(err)
